@@ -76,7 +76,13 @@ func init() {
 		},
 		Rule:   "adversarial cases rich in field-by-field mutations of wire messages, outsiders and vote games; every Store* call is judged for authenticity and every delivery the reference says must be ignored is checked for effects; non-trivial = adversarial must-ignore deliveries were judged",
 		Floors: map[string]int{"C08 stores judged": 20000, "C08 must-ignore deliveries": 20000, "adv mutate": 5000},
-		Judged: []string{"C08 stores judged", "C08 deliveries judged", "C08 must-ignore deliveries"}})
+		Judged: []string{"C08 stores judged", "C08 deliveries judged", "C08 must-ignore deliveries"},
+		Extra: func(run *harness.Run) ([]harness.Finding, map[string]interface{}, []string) {
+			// on the real runtime: a COMMIT must be handled by the term of its own height (seed-identified), also while syncs
+			// overtake a round that is being set up
+			fs, ev, inc := rtPart(run, "stress", 32, 1200, map[string]int{"C17 commits judged for the term that handled them": 3000})
+			return fs, map[string]interface{}{"rt_stress": ev}, inc
+		}})
 	reg(&sim.SimCheck{Prop: "C09", Workload: "c09", Profile: withOpts(advProfile(merge(map[string]int{"barePP": 5}, map[string]int{"vcGames": 25, "support": 20, "equivocate": 8}), 600, 2), func(p *sim.Profile) { p.CommErrors = true }),
 		QuickCases: 5000, ThoroughCases: 100000,
 		NonTrivial: func(r *sim.Result) bool {
@@ -202,7 +208,10 @@ func init() {
 			for k, v := range cov {
 				ev["filter_"+k] = v
 			}
-			return fs, ev, inc
+			// (c) on the real runtime: the random seed each COMMIT share is verified against identifies the term that handles it
+			rfs, rev, rinc := rtPart(run, "stress", 32, 1200, map[string]int{"C17 commits judged for the term that handled them": 3000})
+			ev["rt_stress"] = rev
+			return append(fs, rfs...), ev, append(inc, rinc...)
 		}})
 	reg(&sim.SimCheck{Prop: "C18", Workload: "c18", Profile: advProfile(merge(noBare, map[string]int{"hugeView": 10, "vcGames": 15}), 500, 2),
 		QuickCases: 1500, ThoroughCases: 40000,
